@@ -1186,11 +1186,8 @@ class Sum(Expression):
             if ranges == set(children):
                 return One()
             elif ranges > set(children):
-                keep = ranges - set(children)
-                return Sum.safe(
-                    expression=One(),
-                    ranges=frozenset(v for k, v in children.items() if k in keep),
-                )
+                # the joint sums to one; the remaining ranges still count their values
+                return Sum.safe(expression=One(), ranges=ranges - set(children))
             elif ranges < set(children):
                 keep = set(children) - ranges
                 return expression._new(
